@@ -186,6 +186,12 @@ func ruleTC(c *Ctx) {
 					why = "through the function's own *Thread/*frame parameter"
 					continue
 				}
+				// a private struct that carries the frame (a deferred closure turned into a method of a
+				// small struct): every place that builds one stores a frame obtained from its own thread
+				if tcCarrier(c.P, x.Type()) {
+					why = "through a private carrier struct that is only ever built around the current thread's frame"
+					continue
+				}
 				okAll = false
 			case *ssa.Call:
 				// thread.frameAt(i) / the frame just pushed
@@ -195,6 +201,27 @@ func ruleTC(c *Ctx) {
 						why = "frame obtained from the current thread"
 						continue
 					}
+				}
+				if isFreshValue(fc, b.v) && !b.throughPtr {
+					why = "object created in this function"
+					continue
+				}
+				okAll = false
+			case *ssa.Alloc:
+				// a value receiver spilled to a local: the carrier struct itself
+				carrier := false
+				if x.Referrers() != nil {
+					for _, r := range *x.Referrers() {
+						if st, ok := r.(*ssa.Store); ok && st.Addr == ssa.Value(x) {
+							if prm, ok := st.Val.(*ssa.Parameter); ok && tcCarrier(c.P, prm.Type()) {
+								carrier = true
+							}
+						}
+					}
+				}
+				if carrier {
+					why = "through a private carrier struct that is only ever built around the current thread's frame"
+					continue
 				}
 				if isFreshValue(fc, b.v) && !b.throughPtr {
 					why = "object created in this function"
@@ -218,6 +245,60 @@ func ruleTC(c *Ctx) {
 }
 
 var _ = token.ADD
+
+// tcCarrier: t is an unexported struct type of the value package with a *frame or *Thread field, and every
+// construction of it in the module stores into that field a value that comes from the constructing
+// function's own *Thread/*frame parameter or from a method of its own thread.
+func tcCarrier(p *Prog, t types.Type) bool {
+	named, ok := deref(t).(*types.Named)
+	if !ok || named.Obj().Exported() || named.Obj().Pkg() == nil || relPkg(named.Obj().Pkg().Path()) != "starlark" {
+		return false
+	}
+	st, ok := named.Underlying().(*types.Struct)
+	if !ok {
+		return false
+	}
+	carries := map[int]bool{}
+	for i := 0; i < st.NumFields(); i++ {
+		q := qualType(st.Field(i).Type())
+		if q == "starlark.Thread" || q == "starlark.frame" {
+			carries[i] = true
+		}
+	}
+	if len(carries) == 0 {
+		return false
+	}
+	sites, good := 0, 0
+	for _, fn := range p.Funcs {
+		eachInstr(fn, func(in ssa.Instruction) {
+			st2, ok := in.(*ssa.Store)
+			if !ok {
+				return
+			}
+			fa, ok := st2.Addr.(*ssa.FieldAddr)
+			if !ok || !carries[fa.Field] || !types.Identical(deref(fa.X.Type()), named) {
+				return
+			}
+			sites++
+			okv := false
+			for _, b := range traceValue(st2.Val).bases {
+				switch x := b.v.(type) {
+				case *ssa.Parameter:
+					q := qualType(x.Type())
+					okv = q == "starlark.Thread" || q == "starlark.frame"
+				case *ssa.Call:
+					if cal := x.Call.StaticCallee(); cal != nil && cal.Signature.Recv() != nil && qualType(cal.Signature.Recv().Type()) == "starlark.Thread" && len(x.Call.Args) > 0 && isOwnParam(x.Call.Args[0]) {
+						okv = true
+					}
+				}
+			}
+			if okv {
+				good++
+			}
+		})
+	}
+	return sites > 0 && sites == good
+}
 
 // isOwnParam: v is a parameter of the enclosing function, possibly reloaded
 // from the cell it was spilled to because a closure captures it.
